@@ -751,12 +751,74 @@ def opSdh (args : List String) : Option String := do
   | _ => none
 end ScatFnOps
 
+/-! ### C11 time-domain synthesis (Float) -/
+section TDOps
+open Arim.TD Arim.Num
+
+def tdRT : RT Float := { sin := Float.sin, cos := Float.cos, pi := pi, ofNat := fun n => n.toFloat, ofInt := fun z => Float.ofInt z,
+                         floor := floatFloor, ceil := floatCeil }
+def showCx (z : Cx Float) : String := showFloat z.1 ++ "," ++ showFloat z.2
+def cxList? (s : String) : Option (List (Cx Float)) := (cfList? s).map (fun l => l.map (fun z => (z.re, z.im)))
+
+def opToneburst (args : List String) : Option String := do
+  match args with
+  | [cyc, f, dt, ns, wrap] =>
+    let cyc ← nat? cyc; let f ← float? f; let dt ← float? dt; let ns ← nat? ns
+    let l := lenPulse tdRT cyc f dt
+    let ns := if ns == 0 then l else ns
+    if l > ns then pure "E" else
+    pure (toString l ++ "|" ++ join ((toneburst tdRT 0.0 cyc f dt ns (wrap == "1")).map showCx) ";")
+  | _ => none
+
+def opTb2 (args : List String) : Option String := do
+  match args with
+  | [cyc, f, dt, nb, na] =>
+    let cyc ← nat? cyc; let f ← float? f; let dt ← float? dt; let nb ← nat? nb; let na ← nat? na
+    let r := toneburst2Layout tdRT cyc f dt nb na
+    pure s!"{r.1} {r.2}"
+  | _ => none
+
+def opHilbert (args : List String) : Option String := do
+  match args with
+  | [n, xf] => let n ← nat? n; let xf ← cxList? xf
+               pure (join ((rfftToHilbert tdRT 0.0 xf n).map showCx) ";")
+  | _ => none
+
+/-- `tftt <t0out> <dt> <Nout> <t0idx> <ntone> <freqs> <tonef> <numtraces> entry...`
+    with `entry = trace:delay:tf` (tf = one coefficient or one per frequency) -/
+def opTftt (args : List String) : Option String := do
+  match args with
+  | t0 :: dt :: nout :: t0idx :: ntone :: freqs :: tonef :: ntr :: entries =>
+    let t0 ← float? t0; let dt ← float? dt; let nout ← nat? nout; let t0idx ← nat? t0idx; let ntone ← nat? ntone
+    let freqs ← floatList? freqs; let tonef ← cxList? tonef; let ntr ← nat? ntr
+    let init : List (List (Cx Float)) := List.replicate ntr (List.replicate nout ((0.0, 0.0) : Cx Float))
+    let res ← entries.foldlM (fun (acc : List (List (Cx Float))) e => do
+      match e.splitOn ":" with
+      | [k, d, tf] =>
+        let k ← nat? k; let d ← float? d; let tf ← cxList? tf
+        let tfFull := if tf.length == 1 then List.replicate freqs.length (tf.headD (0.0, 0.0)) else tf
+        let d' := d - t0
+        let (q, r) := splitDelay tdRT d' dt
+        let shifted := timeshift tdRT tfFull freqs r
+        let prod := (List.zip shifted tonef).map (fun p => cmul p.1 p.2)
+        let resp := rfftToHilbert tdRT 0.0 prod ntone
+        let row ← acc[k]?
+        pure (acc.set k (place row resp (q - (t0idx : Int))))
+      | _ => none) init
+    pure (join (res.map (fun row => join (row.map showCx) ";")) "|")
+  | _ => none
+end TDOps
+
 def route (op : String) (args : List String) : String :=
   let r : Option String :=
     match op with
     | "fermat" => opFermat args
     | "minplus" => opMinPlus args
     | "chunks" => opChunks args
+    | "toneburst" => opToneburst args
+    | "tb2" => opTb2 args
+    | "hilbert" => opHilbert args
+    | "tftt" => opTftt args
     | "sdh" => opSdh args
     | "scatinterp" => opScatInterp args
     | "scatangles" => opScatAngles args
